@@ -303,7 +303,7 @@ Describe(x, Y, spans) ==
       other == {y \in Y : y.k = x.k /\ y.a = x.a}
       how == IF same # {} THEN (IF NoMarks(x.p) = NoMarks((CHOOSE y \in same : TRUE).p) THEN "layout" ELSE "changed")
              ELSE IF x.k = "icmt" /\ other # {} THEN "extent"
-             ELSE IF x.p = <<0>> THEN "blank" ELSE "missing"
+             ELSE IF x.p = <<0>> \/ x.p = <<>> THEN "blank" ELSE "missing"
       ing == IF \E s \in spans : s.a < x.a /\ x.a < s.i THEN ":in-group" ELSE ""
   IN x.k \o ":" \o how \o ing \o " #" \o ToString(x.i) \o " @" \o ToString(x.a)
 FirstDiff(p, q) == LET S == {j \in 1..(IF Len(p) < Len(q) THEN Len(p) ELSE Len(q)) : p[j] # q[j]}
